@@ -153,8 +153,11 @@ def programs(draw, base):
             take = draw(st.integers(1, len(remaining)))
             insert_after[key] = ",".join(remaining[:take])
             remaining = remaining[take:]
+    # the new parameters are declared as size parameters (dispersible) or as plain numbers; the volumes and
+    # the effective radius still come from the base model's size parameters either way
+    new_type = draw(st.sampled_from(["volume", "volume", ""]))
     return {"base": base, "replaced": replaced, "new": news, "new_default": ndef, "lines": lines, "text": text,
-            "insert_after": insert_after, "nvars": nvars, "invalid_class": invalid_class}
+            "insert_after": insert_after, "nvars": nvars, "invalid_class": invalid_class, "new_type": new_type}
 
 
 @st.composite
@@ -168,7 +171,7 @@ def cases(draw, base):
     other = {k: v for k, v in other.items() if k not in prog["replaced"]}
     pd = {}
     for n in prog["new"]:
-        if draw(st.integers(0, 2)) == 0:
+        if prog["new_type"] == "volume" and draw(st.integers(0, 2)) == 0:
             pd[n + "_pd"] = draw(st.sampled_from([0.05, 0.15, 0.3]))
             pd[n + "_pd_n"] = draw(st.sampled_from([2, 3, 5, 8]))
             pd[n + "_pd_type"] = draw(st.sampled_from(["gaussian", "uniform", "schulz"]))
@@ -199,9 +202,11 @@ def _tuplify(e):
 
 def build(prog):
     from sasmodels import core
-    key = hashlib.sha1(repr((prog["base"], prog["text"], prog["insert_after"], prog["new"])).encode()).hexdigest()[:10]
+    key = hashlib.sha1(repr((prog["base"], prog["text"], prog["insert_after"], prog["new"],
+                             prog.get("new_type", "volume"))).encode()).hexdigest()[:10]
     if key not in _BUILT:
-        pars = [[n, "Ang", prog["new_default"][n], [0, inf], "volume", "new parameter"] for n in prog["new"]]
+        pars = [[n, "Ang", prog["new_default"][n], [0, inf], prog.get("new_type", "volume"), "new parameter"]
+                for n in prog["new"]]
         info = core.reparameterize(prog["base"], pars, prog["text"], name="rp_" + key,
                                    insert_after=prog["insert_after"])
         _BUILT[key] = (info, core.build_model(info, dtype="double", platform="dll"))
@@ -221,6 +226,8 @@ def check_reparam(case, rec):
         rec.cls("insert_after")
     if prog["invalid_class"]:
         rec.cls("invalid-region-class")
+    if prog.get("new_type", "volume") != "volume":
+        rec.cls("new-parameters-not-size-typed")
     if case["pd"]:
         rec.cls("dispersity-on-new")
     rec.nontrivial(prog["nvars"] >= 1 or len(prog["replaced"]) >= 2 or bool(case["pd"]),
